@@ -23,5 +23,7 @@ def check(chk, fx):
     # they count different automata (a blank skipped by one and not by the other)
     from . import c17
     c17.rej4(chk, fx)
+    from .. import primrules
+    primrules.prims(chk, fx, "GAPI", "CVEC2")
     idxrule.report(chk, fx, lambda q: q.startswith("ctpg::regex::dfa_builder") or q.startswith(P + "state_analyzer"),
                    "automaton builder and state analyzer", 10)
